@@ -496,6 +496,11 @@ def job_fmatch_layout(seed):
             class Z:
                 def __init__(s_, *d): s_.d = d
                 def setZero(s_): ev.append(('setZero', s_))
+                def _part(s_, *a):
+                    class Part:
+                        def setZero(p_): ev.append(('setZero-part', s_, a))
+                    return Part()
+                topRows = bottomRows = leftCols = rightCols = block = row = col = topLeftCorner = _part
             cb = {'emplace_back': emplace, 'Zero': lambda *d: Z(*d), 'BeadCount': lambda t: SInt(Nb), 'ostream_write': lambda *a: None,
                   'FmatchAssignSmoothCondsToMatrix': lambda o, M: ev.append(('smooth', M))}
             ex = Exec({'top': 'TOP'}, cb, {}, this)
@@ -523,7 +528,8 @@ def job_fmatch_layout(seed):
             calls = []
             for k in range(3):
                 sp_[k]['Spline'] = Obj(m_AddBCToFitMatrix=lambda M, l, c, k=k: calls.append(('bc', k, SInt.ex(l), SInt.ex(c))), m_AddBCSumZeroToFitMatrix=lambda M, l, c, k=k: calls.append(('sum0', k, SInt.ex(l), SInt.ex(c))))
-            ex = Exec({'Matrix': Z()}, {}, {}, this)
+            Mz = Z()
+            ex = Exec({'Matrix': Mz}, {}, {}, this)
             ev[:] = []
             try:
                 ex.stmt(rvc.body_of(fns['FmatchAssignSmoothCondsToMatrix'][0]))
@@ -537,8 +543,8 @@ def job_fmatch_layout(seed):
                 exp.append(('bc', k, l0[k], cols[k]))
                 if k == 0 and periodic0:
                     exp.append(('sum0', k, l0[k] + g[k], cols[k]))
-            ok = len(calls) == len(exp) and all(a[0] == b_[0] and a[1] == b_[1] and eq(a[2], b_[2]) and eq(a[3], b_[3]) for a, b_ in zip(calls, exp)) and len(ev) == 1
-            ob('C06.fmatch.layout/%s/smoothing' % t, 'FmatchAssignSmoothCondsToMatrix', 'the matrix is cleared once; the g_k continuity/end conditions of interaction k fill rows [l_k, l_k + g_k) where l_k follows the rows of interaction k-1, at the column block BeginEvaluate assigned to k; '
+            ok = len(calls) == len(exp) and all(a[0] == b_[0] and a[1] == b_[1] and eq(a[2], b_[2]) and eq(a[3], b_[3]) for a, b_ in zip(calls, exp)) and ev == [('setZero', Mz)]
+            ob('C06.fmatch.layout/%s/smoothing' % t, 'FmatchAssignSmoothCondsToMatrix', 'the WHOLE matrix is cleared once (EvalConfiguration relies on this to clear the design matrix between blocks in the plain variant); the g_k continuity/end conditions of interaction k fill rows [l_k, l_k + g_k) where l_k follows the rows of interaction k-1, at the column block BeginEvaluate assigned to k; '
                'the sum-zero condition of a periodic interaction fills the additional reserved row l_k + g_k: no reserved row stays empty and no condition is overwritten (the constrained solve requires full row rank)', ok, str(calls)[:400], bound=bound)
             if not ok and periodic0:
                 replay_periodic(obs[-1])
@@ -590,6 +596,81 @@ def job_fmatch_layout(seed):
     return obs
 
 
+def job_readmatrix(rows, cols, seed):
+    """imcio_read_matrix: entry (i,j) of the returned matrix is token j of data line i (what imcio_write_matrix writes).  Eigen::Map enters by its contract:
+    it views the buffer in the storage order of its matrix type - column-major unless the type says RowMajor"""
+    rvc.reset()
+    fns = rvc.functions(rvc.ast('csg/src/libcsg/imcio.cc', 'imcio_read_matrix'))
+    if 'imcio_read_matrix' not in fns:
+        raise core.Undecided('front end: imcio_read_matrix not found')
+    fn = fns['imcio_read_matrix'][0]
+    F = 'imcio_read_matrix'
+    bound = '%d x %d file (one comment line)' % (rows, cols)
+    val = {'t%d_%d' % (i, j): sp.Symbol('a%d%d' % (i, j), real=True) for i in range(rows) for j in range(cols)}
+    lines = ['# comment'] + [' '.join('t%d_%d' % (i, j) for j in range(cols)) for i in range(rows)]
+    pos = [0]
+    def getline(stream, line):
+        if pos[0] >= len(lines):
+            return False
+        line.set(lines[pos[0]]); pos[0] += 1
+        return True
+    getline.by_ref = True
+    maps = []
+    def construct(ex_, n, ty, args):
+        full = ty + ' ' + n['type'].get('desugaredQualType', '')
+        if 'Map<' in full:
+            a = [rvc.rval(ex_.expr(x)) for x in args]
+            data, r, c = a[0], rvc._i(a[1]), rvc._i(a[2])
+            rowmajor = 'RowMajor' in full or re.search(r'Matrix<double, -1, -1, 1', full) is not None
+            maps.append((r, c, rowmajor, len(data)))
+            if r * c != len(data):
+                raise rvc.Unsupported('Eigen::Map over %d values with shape %dx%d' % (len(data), r, c))
+            return Mx(r, c, [[D.lift(data[i * c + j] if rowmajor else data[i + j * r]) for j in range(c)] for i in range(r)])
+        return NotImplemented
+    def decl(ex_, vd, ty, inner):
+        if 'ifstream' in ty:
+            return {'__class__': 'ifstream'}
+        if 'Tokenizer' in ty:
+            line = rvc.rval(ex_.expr(inner[0]['inner'][0]))
+            return Obj(m_ToVector=lambda: [t for t in line.replace('\t', ' ').split(' ') if t])
+        return NotImplemented
+    cb = {'getline': getline, 'construct': construct, 'decl': decl, 'open': lambda *a: None, 'close': lambda *a: None, 'stream_fail': lambda st: False, 'stod': lambda t: D(val[t])}
+    ex = Exec({'filename': 'FILE'}, cb, {}, None)
+    res = None
+    try:
+        ex.stmt(rvc.body_of(fn))
+    except Ret as r:
+        res = r.v
+    obs = []
+    ok = isinstance(res, Mx) and res.r == rows and res.c == cols
+    obs.append(Ob('C06.readmatrix/%dx%d/shape' % (rows, cols), F, 'the matrix has one row per data line and one column per token', 'RVC', 'symbolic execution', core.BOUNDED if ok else core.REFUTED, 0, str(maps), witness=None if ok else {}, bound=bound))
+    if ok:
+        bad = [(i, j, str(res.g(i, j).v)) for i in range(rows) for j in range(cols) if not rvc.nf_zero(res.g(i, j).v - val['t%d_%d' % (i, j)])]
+        o = Ob('C06.readmatrix/%dx%d/layout' % (rows, cols), F, 'entry (i,j) of the returned matrix is token j of data line i (the layout imcio_write_matrix writes: the matrix csg_imc_solve works on is the one in the file, not its transpose)', 'RVC',
+               'symbolic execution + contract of Eigen::Map (storage order of the mapped type)', core.BOUNDED if not bad else core.REFUTED, 0, 'mismatches (i, j, got): %s' % bad[:6],
+               witness=None if not bad else {'file': '%d x %d matrix with distinct entries' % (rows, cols), 'first_mismatch': str(bad[0])}, bound=bound)
+        obs.append(o)
+        if bad:
+            replay_readmatrix(o, rows, cols)
+    for o in obs:
+        o['functions'] = [{'name': F, 'file': 'csg/src/libcsg/imcio.cc', 'ast_nodes': rvc.node_count(fn)}]
+    return obs
+
+
+def replay_readmatrix(o, rows, cols):
+    try:
+        exe = native.build('C06.readmatrix', open(os.path.join(core.VERIF, 'contracts', 'C06', 'replay_readmatrix.cc')).read(), [], sanitize=False, opt='-O1', libs=native.libs())
+    except core.Undecided as e:
+        o['replay'] = {'reproduced': False, 'error': str(e)}
+        return
+    tmp = os.path.join(core.VERIF, 'build', 'tmp')
+    os.makedirs(tmp, exist_ok=True)
+    f = os.path.join(tmp, 'c06_matrix_%d.txt' % os.getpid())
+    rc, out, err = native.execute(exe, [str(rows), str(cols), f], timeout=60)
+    o['replay'] = {'reproduced': rc == 1, 'cmd': '%s %d %d %s' % (exe, rows, cols, f), 'rc': rc, 'stdout': (out or '')[-800:], 'stderr': (err or '')[-300:],
+                   'against': 'real imcio_write_matrix + imcio_read_matrix (libvotca_csg from the working tree): write a matrix with distinct entries, read it back'}
+
+
 def collect(obs):
     seen = set(f['name'] for f in META['functions'])
     for o in obs:
@@ -613,6 +694,7 @@ def run(tier, seed, only=None):
                 jobs.append((job_imcsolve, (3, su, sv, 1, seed)))
     jobs.append((job_fmatch_rows, (seed,)))
     jobs.append((job_fmatch_layout, (seed,)))
+    jobs += [(job_readmatrix, (r, c, seed)) for r, c in ((2, 2), (2, 3), (3, 2))]
     if only:
         jobs = [j for j in jobs if re.search(only, j[0].__name__)] or jobs
     obs = core.pmap(jobs)
